@@ -13,38 +13,42 @@
 (*   judged  FALSE after a call in the current message failed (residue: outside C01's quantifier)    *)
 EXTENDS TraceBase
 
-VARIABLES l, ps, chan, nr, queued, wired, closed, phase, typ, judged, cancelled
-vars == <<l, ps, chan, nr, queued, wired, closed, phase, typ, judged, cancelled>>
+VARIABLES l, ps, chan, nr, queued, wired, closed, phase, typ, judged, cancelled, failing
+vars == <<l, ps, chan, nr, queued, wired, closed, phase, typ, judged, cancelled, failing>>
 
 E == Trace[l]
 IsEvent(e) == l <= Len(Trace) /\ Trace[l].ev = e /\ l' = l + 1
 
 Init == /\ l = 1 /\ ps = 512 /\ chan = 0 /\ nr = 0 /\ queued = 0 /\ wired = 0 /\ closed = FALSE
-        /\ phase = "idle" /\ typ = 15 /\ judged = TRUE /\ cancelled = FALSE /\ HWInit
+        /\ phase = "idle" /\ typ = 15 /\ judged = TRUE /\ cancelled = FALSE /\ failing = FALSE /\ HWInit
 
 T_Reset == /\ IsEvent("Reset")
            /\ ps' = 512 /\ chan' = 0 /\ nr' = 0 /\ queued' = 0 /\ wired' = 0 /\ closed' = FALSE
-           /\ phase' = "idle" /\ typ' = 15 /\ judged' = TRUE /\ cancelled' = FALSE
+           /\ phase' = "idle" /\ typ' = 15 /\ judged' = TRUE /\ cancelled' = FALSE /\ failing' = FALSE
 T_Chan == /\ IsEvent("Chan") /\ chan' = E.id /\ ps' = E.ps /\ typ' = E.typ /\ nr' = E.nr
-          /\ UNCHANGED <<queued, wired, closed, phase, judged, cancelled>>
+          /\ UNCHANGED <<queued, wired, closed, phase, judged, cancelled, failing>>
 \* the peer renegotiated the packet size between two messages
 T_PacketSize == /\ IsEvent("PacketSize") /\ phase = "idle" /\ queued = 0
                 /\ ps' = E.applied
-                /\ UNCHANGED <<chan, nr, queued, wired, closed, phase, typ, judged, cancelled>>
+                /\ UNCHANGED <<chan, nr, queued, wired, closed, phase, typ, judged, cancelled, failing>>
 T_SetType == /\ IsEvent("SetType") /\ phase = "idle"
-             /\ UNCHANGED <<ps, chan, nr, queued, wired, closed, phase, typ, judged, cancelled>>
+             /\ UNCHANGED <<ps, chan, nr, queued, wired, closed, phase, typ, judged, cancelled, failing>>
 
+\* the transport will fail within the coming writes: the call that hits the failure must report an
+\* error (C14), and the message is not judged any further
+T_WriteFail == /\ IsEvent("WriteFail") /\ phase = "idle" /\ judged' = FALSE /\ failing' = TRUE
+               /\ UNCHANGED <<ps, chan, nr, queued, wired, closed, phase, typ, cancelled>>
 T_Queue == /\ IsEvent("Queue") /\ phase = "idle"
            /\ phase' = "queue" /\ queued' = queued + E.n /\ typ' = E.typ
            /\ cancelled' = (E.ctx = "cancelled")
-           /\ UNCHANGED <<ps, chan, nr, wired, closed, judged>>
+           /\ UNCHANGED <<ps, chan, nr, wired, closed, judged, failing>>
 T_Flush == /\ IsEvent("Flush") /\ phase = "idle"
            /\ phase' = "flush" /\ typ' = E.typ /\ cancelled' = (E.ctx = "cancelled")
-           /\ UNCHANGED <<ps, chan, nr, queued, wired, closed, judged>>
+           /\ UNCHANGED <<ps, chan, nr, queued, wired, closed, judged, failing>>
 T_Send == /\ IsEvent("Send") /\ phase = "idle"
           /\ phase' = "flush" /\ queued' = queued + E.n /\ typ' = E.typ
           /\ cancelled' = (E.ctx = "cancelled")
-          /\ UNCHANGED <<ps, chan, nr, wired, closed, judged>>
+          /\ UNCHANGED <<ps, chan, nr, wired, closed, judged, failing>>
 
 \* one packet observed on the transport
 T_Wire ==
@@ -68,24 +72,29 @@ T_Wire ==
                ELSE /\ E.hlen = ps                   \* every packet but the last is full
                     /\ closed' = FALSE
        ELSE wired' = wired + E.n /\ closed' = (closed \/ E.eom)
-    /\ UNCHANGED <<ps, chan, queued, phase, typ, judged, cancelled>>
+    /\ UNCHANGED <<ps, chan, queued, phase, typ, judged, cancelled, failing>>
 
+\* a packet cut short by the failing transport
+T_WireGarbage == /\ IsEvent("WireGarbage") /\ failing
+                 /\ UNCHANGED <<ps, chan, nr, queued, wired, closed, phase, typ, judged, cancelled, failing>>
 T_QueueEnd ==
     /\ IsEvent("QueueEnd") /\ phase = "queue" /\ phase' = "idle"
-    /\ (~cancelled => E.st = "ok")                   \* packages that encode are queued without error
+    /\ (~cancelled /\ ~failing => E.st = "ok")      \* packages that encode are queued without error
+    /\ E.st # "panic"
     /\ judged' = (judged /\ E.st = "ok")
     /\ cancelled' = FALSE
-    /\ UNCHANGED <<ps, chan, nr, queued, wired, closed, typ>>
+    /\ UNCHANGED <<ps, chan, nr, queued, wired, closed, typ, failing>>
 
 T_FlushEnd ==
     /\ IsEvent("FlushEnd") /\ phase = "flush" /\ phase' = "idle"
     /\ (judged /\ ~cancelled) => /\ E.st = "ok"
                                  /\ wired = queued              \* nothing lost, nothing left behind
                                  /\ (queued > 0 => closed)      \* the message was terminated by EOM
-    /\ queued' = 0 /\ wired' = 0 /\ closed' = FALSE /\ judged' = TRUE /\ cancelled' = FALSE
+    /\ (failing => E.st \in {"err", "ok"})      \* never a panic; "ok" only if the failure point was not reached
+    /\ queued' = 0 /\ wired' = 0 /\ closed' = FALSE /\ judged' = TRUE /\ cancelled' = FALSE /\ failing' = FALSE
     /\ UNCHANGED <<ps, chan, nr, typ>>
 
-Next == T_Reset \/ T_Chan \/ T_PacketSize \/ T_SetType \/ T_Queue \/ T_Flush \/ T_Send \/ T_Wire
+Next == T_Reset \/ T_WriteFail \/ T_Chan \/ T_PacketSize \/ T_SetType \/ T_Queue \/ T_Flush \/ T_Send \/ T_Wire \/ T_WireGarbage
         \/ T_QueueEnd \/ T_FlushEnd
 Spec == Init /\ [][Next]_vars
 HW == HWOf(l)
